@@ -12,7 +12,7 @@ CLAIMED = {
 
  "C12": ("Coq theorems (Types/PhantomProofs.v): constructor call = identity on members / TypeError otherwise; integer types nest by range for ALL integers; membership of a fixed-width type <-> the writer succeeds, and then the reader returns the value; f64, both duration types (read back as the value rounded half-even to whole ms) and the timestamp type are accepted by their writers and read back; instance theorem: translated interval bounds = documented bounds and subclass chains nest; correspondence on isinstance / constructor / writer / read-back over boundary values of every Python type",
          "machine-checked proof (Coq) + instance theorem + correspondence", "4 C12"),
- "C13": ("instance theorem c13_shipped by vm_compute over all 1629 classes / 5094 fields: annotation <-> kafka type table, nullability only on nullable-capable types, tuple[T, ...] arrays, defaults inhabit the declared type (entity defaults by class identity and field-wise), unique in-range tags on flexible classes only, reader+writer plans derivable by the Gallina rendering of kio's introspection AND well-formed (wf_env, the hypothesis of the codec theorems); that rendering is compared with kio's functions on every field plus 300 synthetic annotation/metadata combinations",
+ "C13": ("instance theorem c13_shipped by vm_compute over all 1629 classes / 5094 fields: annotation <-> kafka type table, nullability only on nullable-capable types, tuple[T, ...] arrays, defaults inhabit the declared type (entity defaults by class identity and field-wise), unique in-range tags on flexible classes only, reader+writer plans derivable by the Gallina rendering of kio's introspection AND well-formed (wf_env, the hypothesis of the codec theorems); that rendering is compared with kio's functions on every field plus 300 synthetic annotation/metadata combinations; every class's description is snapshotted before and after deriving its reader and writer",
          "Coq instance theorem by vm_compute over translator output + correspondence of the introspection model", "4 C13"),
  "C15": ("instance theorem c15_shipped (every schema class and the four record classes: frozen, slots = fields, eq, no order, no __dict__, deeply immutable field types) + theorems over the abstract machine for frozen instances (equality is field-wise and an equivalence, any hash of class+fields is consistent, no operation changes an instance, copies are equal) + behavioural correspondence on generated instances (setattr/delattr, ==/hash vs structural equality incl. single-field perturbations down to 1 us, copy/deepcopy/replace/pickle at every protocol, leaf values restricted to the immutable library types). Partial: CPython's dataclass machinery is modelled and sampled, not derived",
          "Coq instance theorem + machine-checked model theorems + behavioural correspondence (partial)", "4 C15"),
@@ -21,7 +21,7 @@ CLAIMED = {
 
  "C02": ("Coq theorem c02_encoder_is_wire_format: for every well-formed environment, class and typed value the model of kio's encoder equals (also in failure) the Kafka wire format written independently in closed form (Codec/WireSpec.v: big-endian digits, base-128 minimal varints, ascending merge-sorted tags); three-way correspondence per run: kio's bytes = independent Python reference encoder = Coq spec_enc",
          "machine-checked proof (Coq) of encoder = independent wire specification + three-way correspondence", "4 C02"),
- "C03": ("Coq theorem c03_decoder_accepts_conforming: for every decorated value a conforming peer may send (explicitly sent defaults incl. explicit nulls, unknown tagged fields with arbitrary payloads at every nesting level, any trailing bytes) the decoder returns exactly the wire values with absent tagged fields defaulted; correspondence on reference-encoded decorated messages of every class",
+ "C03": ("Coq theorem c03_decoder_accepts_conforming: for every decorated value a conforming peer may send (explicitly sent defaults incl. explicit nulls, unknown tagged fields with arbitrary payloads at every nesting level, any trailing bytes) the decoder returns exactly the wire values with absent tagged fields defaulted; correspondence on reference-encoded decorated messages of every class (writers derived first for every other class)",
          "machine-checked proof (Coq) over all conforming encodings + wire-first correspondence", "4 C03"),
  "C05": ("Coq theorems c05_canonical_reencodes / c05_decoder_output_encodable / c05_idempotent: canonical encodings of every typed value decode and re-encode to the same bytes; whatever the decoder returns from any byte string is typed, hence accepted by the encoder (up to the 2^35-byte tagged-section limits, stated as sizes_ok), and decode-then-encode is idempotent; wire-first correspondence",
          "machine-checked proof (Coq) + wire-first correspondence", "4 C05"),
@@ -29,7 +29,7 @@ CLAIMED = {
          "machine-checked proof (Coq) by induction over message lists + sink/source correspondence", "4 C07"),
  "C11": ("Coq theorems over unbounded Z/lists: fixed-width round trip, exact byte length/big-endian value, out-of-range raises; varint minimal length, <=5/<=10 bytes, round trip; zig-zag non-negativity for every integer and round trips; every field-level primitive codec round trip/totality/typed outputs/permitted errors; c11_public_reader_after_writer / c11_public_writers_raise_outside_domain: the same stated about the 58 public functions BY NAME over a table of 40 (writer, reader, domain) rows and 16 bounded writers with exact in-range predicates; c11_reader_accepts_exactly (what a strict reader accepts is exactly writer output ++ rest), the lenient readers (boolean, varints, compact forms) characterised exactly with a witness per leniency, c11_public_reader_accepts_only_encodings on the 23 strict rows by name; correspondence of all 58 modelled public functions by name incl. exhaustive 8/16-bit and varint sweeps compared by CRC; every reader input also decided by an independent decoding of the Kafka primitives (all 65536 error codes, every negative-length shape)",
          "machine-checked proof (Coq) + exhaustive/boundary correspondence of public primitives", "4 C11"),
- "C17": ("Coq theorems c17_header_derived / c17_independent_decoder_recovers / c17_empty_rejected: the model of write_new_batch produces, for every non-empty record list, a batch whose fields at the format's byte offsets are the derived values, batch_length = len-12, CRC-32C over bytes 21..end, and an independent decoder recovers exactly the records; c17_own_reader_recovers (kio's own reader, as modelled, returns the derived batch for every well-formed new batch, with any trailing bytes); correspondence with kio.records.writers + independent Python decoder",
+ "C17": ("Coq theorems c17_header_derived / c17_independent_decoder_recovers / c17_empty_rejected: the model of write_new_batch produces, for every non-empty record list, a batch whose fields at the format's byte offsets are the derived values, batch_length = len-12, CRC-32C over bytes 21..end, and an independent decoder recovers exactly the records; c17_own_reader_recovers (kio's own reader, as modelled, returns the derived batch for every well-formed new batch, with any trailing bytes); correspondence with kio.records.writers + independent Python decoder (batches incl. shared header/key objects, gapped offsets, varint-edge counts)",
          "machine-checked proof (Coq) against an independent format parser + correspondence", "4 C17"),
  "C18": ("Coq theorems: c18_fields_as_encoded, c18_magic_checked, c18_crc_checked, c18_crc_single_bit (CRC-32C detects every single-bit error in messages of any length, by GF(2)-linearity), c18_bit_flip_rejected, c18_byte_change_rejected / c18_crc_field_corrupted / c18_burst_rejected (any replaced byte from the CRC field on, any other stored checksum, any change within four consecutive checksummed bytes - CRC-32C detects every burst of at most 32 bits), c18_truncation_rejected, c18_reader_inverts_writer (for every well-formed prepared batch and any trailing bytes the reader returns the batch, record timestamps floored to seconds), c18_rewrite_reproduces_partial / c18_rewrite_reproduces_iff / c18_rewrite_reproduces_refuted (re-writing reproduces the bytes exactly when no record has a sub-second millisecond part: the known finding as a theorem); correspondence on reference-encoded batches and the broker fixtures under identity/bit flips/replaced checksums/replaced bytes/4-byte bursts/truncation/compound damage/CRC-forced truncation; one recorded known finding (whole-second record timestamps)",
          "machine-checked proof (Coq) incl. CRC linearity + fault-enumeration correspondence", "4 C18"),
@@ -40,7 +40,7 @@ CLAIMED = {
          "machine-checked proof (Coq) + correspondence over all cut points", "4 C06"),
  "C08": ("instance theorem c08_shipped over the translated schema (header rule written from Kafka's ApiMessageTypeGenerator, pairing through the Gallina model of kio.index), exhaustive over all request/response classes by vm_compute; kio.index pairing functions compared with the model on every class and called on a generated instance of every payload class",
          "Coq instance theorem by vm_compute over translator output + correspondence", "4 C08"),
- "C09": ("instance theorem c09_shipped (every top-level class listed under exactly module:qualname, no stale entry, key<->name one-to-one) by vm_compute; loaders compared with the Gallina index model on all entries, near-misses and random lookups",
+ "C09": ("instance theorem c09_shipped (every top-level class listed under exactly module:qualname, no stale entry, key<->name one-to-one) by vm_compute; loaders compared with the Gallina index model on all entries, near-misses, aliasing probes (colliding key/version pairs for the usual radices and wrap-arounds) and random lookups, module and class lookups asked separately",
          "Coq instance theorem by vm_compute over translator output + correspondence", "4 C09"),
  "C10": ("Coq theorems c10_outcomes / c10_returned_value_reencodes: for every byte string decoding returns a typed (re-encodable) value with a suffix remainder or fails with a permitted error class, never out of loop fuel; a time-scaling probe (same shape at size n and 8n, valid / cut / corrupted, must scale linearly); correspondence on mutated encodings of every class",
          "machine-checked proof (Coq) + correspondence on malformed inputs", "4 C10"),
